@@ -54,6 +54,7 @@ type run struct {
 	idxSort  *smt.Sort
 	pvSorts  map[string]*smt.Sort
 	autoUnrolled map[string]bool
+	Trivial  int
 }
 
 // autoUnroll is the unroll bound used for loops that carry no loop contract.
@@ -125,6 +126,14 @@ func (r *run) assume(guard, fact *smt.Term) {
 func (r *run) oblige(kind, name string, guard, goal *smt.Term, text string) *Obligation {
 	if r.dry > 0 {
 		return nil
+	}
+	if kind == "safe" || kind == "ovf" || kind == "frame" || kind == "unwind" {
+		// run-time-check obligations whose condition folded away during generation are not emitted
+		// (thousands of them per table-driven function); they are counted in Trivial
+		if r.C().Implies(guard, goal).IsTrue() {
+			r.Trivial++
+			return nil
+		}
 	}
 	full := r.name + "#" + name
 	if r.nameCount == nil {
@@ -478,6 +487,10 @@ func (r *run) load(n *node, loc Loc) Value {
 		r.assume(c.True(), c.Op(">=", nil, tag, c.IntC(0)))
 		return IfaceV{Tag: tag, Ref: ref}
 	case *types.Array:
+		if _, _, ok := r.constHeap(loc.Heap); ok {
+			l := loc
+			return ArrayV{T: u, ConstLoc: &l}
+		}
 		s := r.arraySort(u)
 		// partial application: select with all idxs yields the inner array
 		h := n.getPV(loc.Heap+"[]", r.heapSortArr(len(loc.Idxs), s))
@@ -1509,6 +1522,9 @@ func (r *run) indexVal(cur *node, fr *frame, x *ssa.Index) Value {
 	switch xv := cur.val(x.X).(type) {
 	case ArrayV:
 		r.abnormal(cur, fr, "index", x, c.Not(c.And(r.sle(r.idxConst(0), idx), r.slt(idx, r.idxConst(xv.T.Len())))))
+		if xv.ConstLoc != nil {
+			return r.load(cur, Loc{Heap: xv.ConstLoc.Heap + "[]", Idxs: append(append([]*smt.Term(nil), xv.ConstLoc.Idxs...), idx), T: xv.T.Elem()})
+		}
 		el := c.Select(xv.A, idx)
 		return r.wrapElem(el, xv.T.Elem())
 	}
